@@ -13,7 +13,7 @@ from bctmc.tally import Tally
 PROPERTY = 'C16'
 RULE = ('all labelled undirected graphs with n<=6 (quick) / n<=7 (thorough) nodes, each in three '
         'variants (binary, weights {1,2}, non-zero diagonal), plus every asymmetric 0/1 matrix on '
-        '3 nodes (with and without diagonal); a case is non-trivial when some component has >=3 '
+        '3 nodes (with and without diagonal) and every 3-4 node symmetric graph perturbed in one cell by 1e-9 / 1e-12; a case is non-trivial when some component has >=3 '
         'nodes (several partial sets must be merged) or the input must be rejected')
 ASSUMPTIONS = ['float64 inputs', 'reference: BFS over the symmetric support (bctmc.smallscope.bfs_components)']
 
@@ -27,6 +27,9 @@ def plan(ctx):
             units.append(('und', n, a, b))
     for (a, b) in ss.ranges(ss.dir_count(3, (0, 1)), 4):
         units.append(('asym', 3, a, b))
+    for n in (3, 4):
+        for (a, b) in ss.ranges(ss.und_count(n, (0, 1)), 4):
+            units.append(('nearsym', n, a, b))
     return units
 
 
@@ -99,6 +102,22 @@ def work(unit):
                 check_und(t, V, name, case)
                 if nontriv and name == "weighted" and idx % 97 == 5:
                     t.sample(case, order=-n * 10 ** 7 + idx)
+        elif kind == 'nearsym':
+            # symmetric graph made asymmetric by an amount below any common tolerance: still asymmetric input
+            S0 = ss.und_graph(n, (0, 1), idx)
+            for (i, j) in [(i, j) for i in range(n) for j in range(n) if i != j]:
+                for eps in (1e-9, 1e-12):
+                    V = S0 * 0.5
+                    V[i, j] += eps
+                    case = {'family': 'nearsym', 'n': n, 'index': idx, 'variant': 'eps%g@%d,%d' % (eps, i, j), 'A': V}
+                    t.c['evaluations'] += 1
+                    t.c['nontrivial'] += 1
+                    t.c['rejections_expected'] += 1
+                    for fname in ('get_components', 'number_of_components'):
+                        st, out = guarded(getattr(bct, fname), V.copy())
+                        if not (st == 'exc' and isinstance(out, bct.BCTParamError)):
+                            t.viol(fname, 'rejects_asymmetric', case, observed=out, expected='BCTParamError',
+                                   tags={'asymmetry': eps})
         else:
             A = ss.dir_graph(n, (0, 1), idx)
             if np.array_equal(A, A.T):
